@@ -291,7 +291,8 @@ func onResourceRuleUpdate(res string, rawResRules []*Rule) (err error) {
 		tcMap[res] = newResTcs
 	}
 	tcMux.Unlock()
-	currentRules[res] = rawResRules
+	// keep a private copy: the caller may reuse its slice for the next load, which is compared against this one
+	currentRules[res] = append(make([]*Rule, 0, len(rawResRules)), rawResRules...)
 	logging.Debug("[Flow onResourceRuleUpdate] Time statistic(ns) for updating flow rule", "timeCost", util.CurrentTimeNano()-start)
 	logging.Info("[Flow] load resource level rules", "resource", res, "validResRules", validResRules)
 	return nil
